@@ -76,7 +76,7 @@ func runC04Pairing(c *Ctx) {
 	}
 	// C37/C39: the callee that takes over a version reference disposes of it on every path
 	if fn := c.Fn("C04.P3", "p.(*EventuallyFileOnlySnapshot).transitionToFileOnlySnapshot"); fn != nil {
-		c.ParamDisposed(PairSpec{Rule: "C04.P3", What: "version reference handed to transitionToFileOnlySnapshot is stored or released on every path", Release: []string{"Unref", "UnrefLocked"}}, fn, "vers")
+		c.ParamDisposed(PairSpec{Rule: "C04.P3", What: "version reference handed to transitionToFileOnlySnapshot is stored or released on every path", Release: []string{"Unref", "UnrefLocked"}}, fn, ParamName(fn, 1))
 	}
 }
 
